@@ -88,7 +88,9 @@ def main(argv):
         for d in r["dropped"]:
             assumptions.add("dropped (effect-free logging): " + d)
         if r["status"] == "error":
-            broken.append(f"unit {r['unit']} crashed: {r['reason'][:300]}")
+            # an exception inside the executor while it interprets (possibly changed) source is a tool limit: the unit's obligations are
+            # undecided (they are missing against the baseline below) - never a violation, and not a broken check either
+            assumptions.add(f"unit {r['unit']}: executor exception, obligations undecided: {r['reason'][:200]}")
         for name, o in r["obligations"].items():
             full = f"{r['unit']}::{name}"
             seen.add(full)
@@ -110,15 +112,30 @@ def main(argv):
         unit_id = full.split("::")[0]
         why = unit_status.get(unit_id, {}).get("reason", "unit missing")
         undecided.append((full, "missing", why))
+    def src_digest():
+        import hashlib
+        h = hashlib.sha256()
+        root = os.path.join(os.environ.get("VERIF_REPO", "/repo"), "liesel")
+        for d, _dirs, files in sorted(os.walk(root)):
+            for fn in sorted(files):
+                if fn.endswith(".py"):
+                    with open(os.path.join(d, fn), "rb") as fh:
+                        h.update(fn.encode() + b"\0" + fh.read())
+        return h.hexdigest()
+
     if update_baseline:
         baseline_all[pid] = sorted(seen)
+        baseline_all.setdefault("__source_digest__", {})[pid] = src_digest()
         with open(os.path.join(ROOT, "expected_obligations.json"), "w") as f:
             json.dump(baseline_all, f, indent=1, sort_keys=True)
         baseline = set(seen)
     if vacuous:
         broken.append("vacuous preconditions (cover unreachable): " + ", ".join(vacuous))
     if results and not seen:
-        broken.append("zero obligations generated")
+        # vacuity guard: on the source the baseline was recorded for, a run that generates no obligation is a broken checker; on CHANGED source
+        # every unit may legitimately leave the subset - then everything is undecided (listed above as missing), which is not a violation
+        if not baseline or baseline_all.get("__source_digest__", {}).get(pid) in (None, src_digest()):
+            broken.append("zero obligations generated")
 
     # ---- bounded stand-in + replay
     rtc = None
